@@ -196,6 +196,8 @@ func runC35(c *Ctx) {
 		}
 	}
 	c.R.FloorCheck("R-create MaxLength implementations", nMax, 25)
+	c.R.Rule("R-maxlen", "for every message type whose Serialize writes a statically determined number of bytes (fixed-width writes, optionally one loop over a list whose length the writer bounds by a constant), the constant MaxLength() is at least that number")
+	c.maxLengthCoversWire("R-maxlen", 5)
 	// WriteMessage
 	if wm := c.fn("p2p", "", "WriteMessage"); wm != nil {
 		for _, w := range ssau.CallsIn(wm, namedCall("Write")) {
